@@ -1,7 +1,7 @@
 (* C13 - MakeFuzz is total and faithful on arbitrary bytes.  Statements only. *)
 From Coq Require Import Lia.
 Require Import Rapid.Model.Base Rapid.Model.Syntax Rapid.Model.Monad Rapid.Model.Engine.
-Require Import Rapid.Proofs.Frame Rapid.Proofs.Prefix Rapid.Proofs.FuzzProofs.
+Require Import Rapid.Proofs.Frame Rapid.Proofs.Prefix Rapid.Proofs.FuzzProofs Rapid.Proofs.Termination.
 Local Open Scope nat_scope.
 
 (* checkFuzz reads the input as little-endian 64-bit words, a short tail zero-padded: ceil(n/8) words,
@@ -46,3 +46,12 @@ Print Assumptions C13_suffix.
 Example C13_words_example :
   words_of_bytes 12 [1; 2; 3; 4; 5; 6; 7; 8; 9; 10; 11]%N = [578437695752307201; 723465]%N.
 Proof. vm_compute. reflexivity. Qed.
+
+(* it never hangs: on every byte string the run ends for a reason other than the model's loop fuel, as soon
+   as the fuel exceeds the number of input words (properties without cleanups; with cleanups: C03_fuel_means_many_cleanups) *)
+Theorem C13_never_hangs :
+  forall geom LF lvl p bs,
+    cleanup_free_p p -> length (words_of_bytes (S (length bs)) bs) < LF ->
+    fst (checkFuzz geom LF lvl p bs) <> FFuel.
+Proof. exact no_fuel_checkFuzz. Qed.
+Print Assumptions C13_never_hangs.
